@@ -3449,7 +3449,8 @@ class Constructs(mixin.Container, core.Constructs):
         out = self.unfilter(depth=depth)
 
         if depth:
-            if "inverse_filter" in self.filters_applied()[-1]:
+            filters = self.filters_applied()
+            if filters and "inverse_filter" in filters[-1]:
                 filters = out.filters_applied()
                 d = 1
                 while True:
